@@ -161,6 +161,19 @@ def template_binding_obligation(ctx):
     ctx.add(enum_ob('C19.text.template-bound-per-render', bad is None, where=where, cex=bad,
                     clause='in every call history of two text writers sharing the class-level Environment, each structure is rendered with the shared template bound to the rendering writer\'s own lw and opts'))
 
+def replay_node_kinds(r):
+    "finished tableaux that end with quit-flag nodes, every format and notation"
+    from pytableaux.proof import Tableau, TabWriter, writers
+    from pytableaux.lang import Argument, Notation
+    out = []
+    for L, a in (('S5', 'b:LMa'), ('CFOL', 'b:VxSyGxy'), ('S4K3', 'b:LMa'), ('CPL', 'a:a')):
+        t = Tableau(L, Argument(a), max_steps=200).build()
+        for fmt in writers.registry:
+            for notn in Notation:
+                try: TabWriter(fmt, notn)(t)
+                except Exception as e: out.append(f'{L} {a} ({fmt}, {notn.name}): {type(e).__name__}: {e}'[:160])
+    return dict(reproduced=bool(out), detail='; '.join(out[:3]) or 'all render')
+
 def replay_template_binding(r):
     "two live text writers of different notation on a real tableau: A, B, A"
     from pytableaux.proof import Tableau, TabWriter
@@ -174,6 +187,60 @@ def replay_template_binding(r):
     if b1 != b2: bad.append('the standard writer renders differently the second time')
     if a2 != fa or b2 != fb: bad.append('a long-lived writer differs from a fresh writer of the same notation')
     return dict(reproduced=bool(bad), detail='; '.join(bad) or 'A, B, A, B render identically to fresh writers', second_polish_rendering=a2[:200])
+
+def node_kinds_obligation(ctx):
+    """every concrete node class the prover can put on a branch is handled by the doctree builder and by the text template:
+    node_props.get_obj_children runs on a real instance of each class (finite: the class hierarchy of proof.common), and a
+    one-branch tableau holding one node of each class renders in every format and notation"""
+    from pytableaux import proof
+    from pytableaux.proof import Tableau, TabWriter, writers, sdwnode, swnode, snode, anode
+    from pytableaux.proof.writers.doctree import nodes as DN
+    from pytableaux.lang import Atomic, Notation
+    A_ = Atomic(0, 0)
+    insts = {'SentenceNode': snode(A_), 'SentenceWorldNode': swnode(A_, 1), 'SentenceDesignationNode': sdwnode(A_, True, None), 'SentenceDesignationWorldNode': sdwnode(A_, False, 2),
+             'AccessNode': anode(0, 1)}
+    from pytableaux.proof import common as C
+    from pytableaux.lang import Argument
+    # closure / quit-flag nodes as the prover itself builds them
+    for L_, a_ in (('CPL', 'a:a'), ('S5', 'b:LMa'), ('CFOL', 'b:VxSyGxy')):
+        for b_ in Tableau(L_, Argument(a_), max_steps=200).build():
+            for nd in b_: insts.setdefault(type(nd).__name__, nd)
+    if hasattr(C, 'EllipsisNode'):
+        try: insts.setdefault('EllipsisNode', C.Node.for_mapping({'ellipsis': True}))
+        except Exception: pass
+    fn = DN.node_props.__dict__['get_obj_children']; fn = getattr(fn, '__func__', fn); fi = source.of_function(fn); where = ctx.under_contract(fi)
+    # every concrete subclass of Node must have been given an instance above
+    def subs(c):
+        for k in c.__subclasses__():
+            yield k; yield from subs(k)
+    concrete = sorted({k.__name__ for k in subs(C.Node) if k.__module__.startswith('pytableaux')})
+    bad = []
+    for name, nd in insts.items():
+        if nd is None: continue
+        try: kids = list(DN.node_props.get_obj_children(nd))
+        except Exception as e: bad.append(dict(node_class=name, raises=f'{type(e).__name__}: {e}'[:120])); continue
+        want = {'AccessNode': 3, 'ClosureNode': 1, 'QuitFlagNode': 1, 'EllipsisNode': 1}.get(name, 1)
+        if len(kids) != want: bad.append(dict(node_class=name, children=len(kids), wanted=want))
+    missing = [k for k in concrete if k not in insts and k not in ('WorldNode', 'DesignationNode', 'FlagNode', 'Modal', 'Designated')]
+    if 'QuitFlagNode' not in insts or 'ClosureNode' not in insts: bad.append(dict(setup='no closure / quit-flag node could be obtained from the sample proofs'))
+    ctx.add(enum_ob('C19.doctree.node_props.total', not bad, where=where, cex=dict(bad=bad[:4]), node_classes=sorted(type(v).__name__ for k, v in insts.items() if v is not None), concrete_classes=concrete, not_instantiated=missing,
+                    clause='node_props.get_obj_children handles an instance of every node class (sentence nodes 1 child, access nodes 3, closure / quit-flag / ellipsis 1) without raising (run on the real function; the class list is read from the live hierarchy)'))
+    # render a tableau whose branch holds one node of each class
+    bad2 = []
+    try:
+        t = Tableau('K'); b = t.branch()
+        for name in ('SentenceWorldNode', 'AccessNode', 'QuitFlagNode'):
+            if insts.get(name) is not None: b.append(insts[name])
+        t.finish()
+        for fmt in writers.registry:
+            for notn in Notation:
+                try:
+                    out = TabWriter(fmt, notn)(t)
+                    if not out.strip(): bad2.append(dict(format=fmt, notation=notn.name, problem='empty'))
+                except Exception as e: bad2.append(dict(format=fmt, notation=notn.name, raises=f'{type(e).__name__}: {e}'[:120]))
+    except Exception as e:
+        bad2.append(dict(setup=f'{type(e).__name__}: {e}'[:160]))
+    ctx.add(enum_ob('C19.render.every-node-class', not bad2, cex=dict(bad=bad2[:4]), clause='a finished tableau whose branch carries a sentence node, an access node and a quit-flag node renders in every registered format and notation'))
 
 def registry_obligation(ctx):
     from pytableaux.proof import writers, TabWriter
@@ -243,9 +310,16 @@ def _render_chunk(job):
     n = 0; bad = []
     live = {}       # long-lived writers, shared by all tableaux of the chunk
     kinds = ['prop'] + (['modal'] if logic.Meta.modal else []) + (['fo'] if logic.Meta.quantified else [])
-    for i in range(count):
+    # besides the random arguments: inputs that end with quit-flag nodes (world / constant budget) and a closed one with access nodes
+    from pytableaux.lang import Argument as _Arg
+    special = []
+    if logic.Meta.quantified: special.append('b:VxSyGxy')
+    if logic.Meta.modal: special += ['b:LMa', 'Ma:LMa']
+    for i in range(count + len(special)):
         arg = A.random_argument(rnd, kinds[i % len(kinds)], depth=3, max_premises=2)
         opts = dict(max_steps=(3 if i % 4 == 3 else 150), is_build_models=bool(i % 2))
+        if i >= count:
+            arg = _Arg(special[i - count]); opts = dict(max_steps=200, is_build_models=False)
         try:
             t = Tableau(logic, arg, **opts).build()
         except Exception as e:
@@ -345,10 +419,13 @@ def run(ctx):
                        'that part is the bounded stand-in (render every format/notation of seeded finished tableaux in all logics; no error, deterministic, text faithful).')
     write_structure_obligation(ctx)
     template_binding_obligation(ctx)
+    node_kinds_obligation(ctx)
     registry_obligation(ctx)
     table_totality(ctx)
     bounded_render(ctx)
     ctx.replayers['C19.text.template-bound'] = replay_template_binding
+    ctx.replayers['C19.doctree.'] = replay_node_kinds
+    ctx.replayers['C19.render.'] = replay_node_kinds
     ctx.replayers['C19.'] = lambda r: dict(reproduced=None, detail='see counterexample / meta')
 
 def replay(payload):
